@@ -425,13 +425,13 @@ def inlined_statements(fn: FuncNode) -> List[str]:
     class Sub(ast.NodeTransformer):
         def visit_Name(self, node: ast.Name) -> ast.AST:
             if isinstance(node.ctx, ast.Load) and node.id in binds:
-                return copy.deepcopy(binds[node.id])
+                return clone(binds[node.id])
             return node
 
     for st in fn.body:
         if isinstance(st, ast.Expr) and isinstance(st.value, ast.Constant):
             continue            # docstring
-        st2 = Sub().visit(copy.deepcopy(st))
+        st2 = Sub().visit(clone(st))
         if isinstance(st2, ast.Assign) and len(st2.targets) == 1 and isinstance(st2.targets[0], ast.Name) and counts.get(st2.targets[0].id) == 1:
             binds[st2.targets[0].id] = st2.value
             continue
@@ -459,7 +459,232 @@ def eval_int_expr(e: ast.AST, env: Dict[str, int]) -> int:
         return BIN[type(e.op)](eval_int_expr(e.left, env), eval_int_expr(e.right, env))
     if isinstance(e, ast.IfExp):
         return eval_int_expr(e.body if eval_int_expr(e.test, env) else e.orelse, env)
+    if isinstance(e, ast.Call) and isinstance(e.func, ast.Attribute) and e.func.attr == 'bit_length' and not e.args:
+        return eval_int_expr(e.func.value, env).bit_length()
     if isinstance(e, ast.Compare) and len(e.ops) == 1:
         a, b = eval_int_expr(e.left, env), eval_int_expr(e.comparators[0], env)
         return int({ast.Lt: a < b, ast.LtE: a <= b, ast.Gt: a > b, ast.GtE: a >= b, ast.Eq: a == b, ast.NotEq: a != b}[type(e.ops[0])])
     raise AnalysisError(f'eval_int_expr: unsupported expression {norm(e)[:60]}')
+
+
+# ---------------------------------------------------------------- normalisation helpers (behaviour-preserving respellings)
+
+_FLIP = {ast.Gt: ast.Lt, ast.GtE: ast.LtE, ast.Lt: ast.Gt, ast.LtE: ast.GtE}
+_NEG = {ast.Lt: ast.GtE, ast.LtE: ast.Gt, ast.Gt: ast.LtE, ast.GtE: ast.Lt, ast.Eq: ast.NotEq, ast.NotEq: ast.Eq,
+        ast.In: ast.NotIn, ast.NotIn: ast.In, ast.Is: ast.IsNot, ast.IsNot: ast.Is}
+
+
+def push_not(e: ast.expr, neg: bool = False) -> ast.expr:
+    """negation normal form: `not` pushed inward (De Morgan, negated comparisons, chained comparisons split)."""
+    if isinstance(e, ast.UnaryOp) and isinstance(e.op, ast.Not):
+        return push_not(e.operand, not neg)
+    if isinstance(e, ast.BoolOp):
+        op = (ast.Or() if isinstance(e.op, ast.And) else ast.And()) if neg else e.op
+        return ast.BoolOp(op=op, values=[push_not(v, neg) for v in e.values])
+    if isinstance(e, ast.Compare):
+        links = []
+        left = e.left
+        for op, right in zip(e.ops, e.comparators):
+            links.append(ast.Compare(left=left, ops=[_NEG[type(op)]() if neg and type(op) in _NEG else op], comparators=[right]))
+            left = right
+        if neg and any(type(op) not in _NEG for op in e.ops):
+            return ast.UnaryOp(op=ast.Not(), operand=e)
+        if len(links) == 1:
+            return links[0]
+        return ast.BoolOp(op=ast.Or() if neg else ast.And(), values=links)
+    return ast.UnaryOp(op=ast.Not(), operand=e) if neg else e
+
+
+def canon_cond(e: ast.expr) -> str:
+    """canonical text of a condition: NNF, comparisons oriented with < / <= only and ==/!= operands sorted, and/or operands
+    flattened and sorted. two conditions with the same truth table under these laws get the same text."""
+    def rec(x: ast.expr) -> str:
+        if isinstance(x, ast.BoolOp):
+            parts: List[str] = []
+            for v in x.values:
+                if isinstance(v, ast.BoolOp) and type(v.op) is type(x.op):
+                    parts.extend(rec(w) for w in v.values)
+                else:
+                    parts.append(rec(v))
+            j = ' and ' if isinstance(x.op, ast.And) else ' or '
+            return '(' + j.join(sorted(set(parts))) + ')'
+        if isinstance(x, ast.Compare) and len(x.ops) == 1:
+            a, op, b = x.left, x.ops[0], x.comparators[0]
+            if type(op) in (ast.Gt, ast.GtE):
+                a, b, op = b, a, _FLIP[type(op)]()
+            ta, tb = norm(a), norm(b)
+            if isinstance(op, (ast.Eq, ast.NotEq)) and tb < ta:
+                ta, tb = tb, ta
+            sym = {ast.Lt: '<', ast.LtE: '<=', ast.Eq: '==', ast.NotEq: '!=', ast.In: 'in', ast.NotIn: 'not in', ast.Is: 'is',
+                   ast.IsNot: 'is not'}[type(op)]
+            return f'{ta} {sym} {tb}'
+        if isinstance(x, ast.UnaryOp) and isinstance(x.op, ast.Not):
+            return 'not ' + rec(x.operand)
+        return norm(x)
+    return rec(push_not(e))
+
+
+def canon_cond_text(text: str) -> str:
+    return canon_cond(ast.parse(text, mode='eval').body)
+
+
+cn = canon_cond          # canonical text of a condition node
+cc = canon_cond_text     # canonical text of a condition given as source text
+
+
+def inline_block(stmts: Sequence[ast.stmt]) -> List[ast.stmt]:
+    """a statement list with its single-assignment plain-name temporaries substituted into their later uses in the same
+    list (and the binding statements dropped)."""
+    import copy
+    counts: Dict[str, int] = {}
+    for st in stmts:
+        for n in ast.walk(st):
+            if isinstance(n, ast.Name) and isinstance(n.ctx, ast.Store):
+                counts[n.id] = counts.get(n.id, 0) + 1
+    binds: Dict[str, ast.expr] = {}
+
+    class Sub(ast.NodeTransformer):
+        def visit_Name(self, node: ast.Name) -> ast.AST:
+            if isinstance(node.ctx, ast.Load) and node.id in binds:
+                return clone(binds[node.id])
+            return node
+    out: List[ast.stmt] = []
+    for st in stmts:
+        st2 = Sub().visit(clone(st))
+        if isinstance(st2, ast.Assign) and len(st2.targets) == 1 and isinstance(st2.targets[0], ast.Name) and counts.get(st2.targets[0].id) == 1 \
+                and not any(isinstance(x, ast.Name) and x.id == st2.targets[0].id for x in ast.walk(st.value)):     # not an accumulator
+            binds[st2.targets[0].id] = st2.value
+            continue
+        out.append(ast.fix_missing_locations(st2))
+    return out
+
+
+def inline_predicates(repo: 'Repo', rel: str, cls: Optional[str], e: ast.expr) -> ast.expr:
+    """calls of a private single-`return <expr>` function / method without arguments (self._is_x()) replaced by that expression."""
+    import copy
+
+    class Sub(ast.NodeTransformer):
+        def visit_Call(self, node: ast.Call) -> ast.AST:
+            self.generic_visit(node)
+            d = dotted(node.func)
+            name = d.split('.')[-1]
+            if not name.startswith('_') or node.args or node.keywords:
+                return node
+            q = f'{cls}.{name}' if d.startswith('self.') and cls else name
+            if not repo.has_func(rel, q):
+                return node
+            f = repo.func(rel, q)
+            body = [b for b in f.body if not (isinstance(b, ast.Expr) and isinstance(b.value, ast.Constant))]
+            if len(body) == 1 and isinstance(body[0], ast.Return) and body[0].value is not None:
+                return clone(body[0].value)
+            return node
+    return ast.fix_missing_locations(Sub().visit(clone(e)))
+
+
+def dispatch_return(stmts: Sequence[ast.stmt], var: str, const: str) -> Optional[ast.expr]:
+    """the expression returned by a statement list when the dispatch variable `var` holds the named constant `const`
+    (compared by spelling): follows `if var == K` / `K == var` / `var != K` / `var in (K1, K2)` / `var in TABLE` chains where
+    TABLE is a local dict / tuple / set literal, and resolves `TABLE[var]` in the returned expression. None: no return decided."""
+    import copy
+    tables: Dict[str, ast.expr] = {}
+
+    def decide(t: ast.expr) -> Optional[bool]:
+        if isinstance(t, ast.Compare) and len(t.ops) == 1:
+            a, op, b = t.left, t.ops[0], t.comparators[0]
+            if isinstance(op, (ast.Eq, ast.NotEq)) and var in (norm(a), norm(b)):
+                other = norm(b) if norm(a) == var else norm(a)
+                return (other == const) == isinstance(op, ast.Eq)
+            if isinstance(op, (ast.In, ast.NotIn)) and norm(a) == var:
+                cont = tables.get(norm(b), b)
+                keys = cont.keys if isinstance(cont, ast.Dict) else cont.elts if isinstance(cont, (ast.Tuple, ast.List, ast.Set)) else None
+                if keys is None:
+                    return None
+                return (const in [norm(k) for k in keys if k is not None]) == isinstance(op, ast.In)
+        if isinstance(t, ast.BoolOp):
+            vals = [decide(v) for v in t.values]
+            if isinstance(t.op, ast.And):
+                return False if False in vals else (None if None in vals else True)
+            return True if True in vals else (None if None in vals else False)
+        if isinstance(t, ast.UnaryOp) and isinstance(t.op, ast.Not):
+            v = decide(t.operand)
+            return None if v is None else not v
+        return None
+
+    class Sub(ast.NodeTransformer):
+        def visit_Subscript(self, node: ast.Subscript) -> ast.AST:
+            self.generic_visit(node)
+            if norm(node.slice) == var and norm(node.value) in tables and isinstance(tables[norm(node.value)], ast.Dict):
+                d = tables[norm(node.value)]
+                for k, v in zip(d.keys, d.values):      # type: ignore[attr-defined]
+                    if k is not None and norm(k) == const:
+                        return clone(v)
+            return node
+
+    def run(block: Sequence[ast.stmt]) -> Tuple[bool, Optional[ast.expr]]:
+        for st in block:
+            if isinstance(st, (ast.Assign, ast.AnnAssign)):
+                tgt = st.targets[0] if isinstance(st, ast.Assign) else st.target
+                if isinstance(tgt, ast.Name) and isinstance(st.value, (ast.Dict, ast.Tuple, ast.List, ast.Set)):
+                    tables[tgt.id] = st.value
+            elif isinstance(st, ast.If):
+                d = decide(st.test)
+                if d is None:
+                    continue
+                done, val = run(st.body if d else st.orelse)
+                if done:
+                    return True, val
+            elif isinstance(st, ast.Return):
+                return True, (ast.fix_missing_locations(Sub().visit(clone(st.value))) if st.value is not None else None)
+            elif isinstance(st, ast.Raise):
+                return True, None
+        return False, None
+    return run(stmts)[1]
+
+
+def clone(node: Any) -> Any:
+    """structural copy of an AST following only the grammar fields (the parsed modules carry back-links that make
+    copy.deepcopy copy the whole module)."""
+    if isinstance(node, ast.AST):
+        new = type(node)()
+        for f in node._fields:
+            if hasattr(node, f):
+                setattr(new, f, clone(getattr(node, f)))
+        for a in ('lineno', 'col_offset', 'end_lineno', 'end_col_offset'):
+            if hasattr(node, a):
+                setattr(new, a, getattr(node, a))
+        return new
+    if isinstance(node, list):
+        return [clone(x) for x in node]
+    return node
+
+
+def inline_pure_temps(fn: FuncNode) -> FuncNode:
+    """a copy of the function in which every local that is bound exactly once, at the top level of the body (not inside a loop or
+    branch), to a call-free expression over names that are themselves never re-bound afterwards, is substituted into all its
+    later uses (also inside loops and branches) and its binding is dropped: `m = (1 << n) - 1` ... `x & m` reads like
+    `x & (1 << n) - 1`."""
+    new = clone(fn)
+    counts: Dict[str, int] = {}
+    for n in ast.walk(new):
+        if isinstance(n, ast.Name) and isinstance(n.ctx, ast.Store):
+            counts[n.id] = counts.get(n.id, 0) + 1
+        elif isinstance(n, ast.arg):
+            counts[n.arg] = counts.get(n.arg, 0) + 1
+    binds: Dict[str, ast.expr] = {}
+
+    class Sub(ast.NodeTransformer):
+        def visit_Name(self, node: ast.Name) -> ast.AST:
+            if isinstance(node.ctx, ast.Load) and node.id in binds:
+                return clone(binds[node.id])
+            return node
+    body: List[ast.stmt] = []
+    for st in new.body:
+        st2 = Sub().visit(st)
+        if isinstance(st2, ast.Assign) and len(st2.targets) == 1 and isinstance(st2.targets[0], ast.Name) \
+                and counts.get(st2.targets[0].id) == 1 and not any(isinstance(x, (ast.Call, ast.Await, ast.Yield)) for x in ast.walk(st2.value)) \
+                and all(counts.get(x.id, 0) <= 1 for x in ast.walk(st2.value) if isinstance(x, ast.Name)):
+            binds[st2.targets[0].id] = st2.value
+            continue
+        body.append(st2)
+    new.body = body
+    return ast.fix_missing_locations(new)
